@@ -227,6 +227,10 @@ func failureReachesSuccess(fn *ssa.Function, call *ssa.Call, ev ssa.Value) []Wit
 		if isNilConst(strip(v)) {
 			return true
 		}
+		// the same getter asked again (`if g.Err() != nil { return g.Err() }`): the error itself
+		if c2, ok := strip(v).(*ssa.Call); ok && c2.Call.StaticCallee() != nil && c2.Call.StaticCallee() == call.Call.StaticCallee() && RR.V(c2) == RR.V(call) {
+			return false
+		}
 		// another error value: success unless this return is dominated by its own non-nil test
 		_, nn := nilTestEdges(fn, strip(v))
 		q := Query{Fn: fn, IsSite: func(x ssa.Instruction) bool { return x == in }, GenEdge: nn}
@@ -714,7 +718,6 @@ var errFlowAllowed = map[string]string{
 	"(*sync.Task).CloneReplica | (*controller/client.ControllerClient).ListReplicas":                                  "retry loop (2 s)",
 	"(*sync.Task).CloneReplica | (*sync.Task).syncFiles":                                                              "retry loop (2 s); success needs a later successful copy (C19-CLONE-ORDER)",
 	"app.lsReplica | app.getChain":                                                                                    "CLI listing: a replica whose chain cannot be fetched is printed without it",
-	"replica.preload | (*replica.UsedGenerator).Err":                                                                  "generator.Err() is called twice: tested, then returned",
 }
 
 // errFlowConvention: callee-wide conventions (any caller).
